@@ -655,7 +655,7 @@ func TestVerif_C37(t *testing.T) {
 		res.Problem("no schedules in %s", vf)
 	}
 	rng = kit.Rand(3711)
-	for i := 0; i < kit.Pick(300, 6000); i++ {
+	for i := 0; i < kit.Pick(300, 3000); i++ {
 		rec, ok := c37Stress(i, rng, res)
 		note(rec)
 		if !ok {
